@@ -200,9 +200,9 @@ def parser_soundness_tie(c, hb):
     it = iter(replies)
     st = {"cases": 0, "front_ok_agree": 0, "front_err_agree": 0, "documents": 0, "valid": 0, "invalid": 0,
           "modelled_documents": 0, "unmodelled_documents": 0, "frag_cases": 0, "frag_documents": 0, "frag_valid": 0,
-          "frag_strict_wf": 0, "frag_strict_wf_in_srcDen_real": 0, "frag_valid_not_strict": 0, "bad_replies": 0, "skipped": {}}
-    kinds, notfrag, case_line, jsdef = {}, {}, {}, {}
-    front_bad, valid_bad, inst_bad, minst_bad, strict_bad, oracle_bad, witness = [], [], [], [], [], [], []
+          "frag_strict_wf": 0, "frag_strict_wf_in_srcDen_real": 0, "frag_valid_not_strict": 0, "end_to_end_instances": 0, "bad_replies": 0, "skipped": {}}
+    kinds, notfrag, case_line, jsdef, schema_text = {}, {}, {}, {}, {}
+    front_bad, valid_bad, inst_bad, minst_bad, strict_bad, oracle_bad, witness, e2e_bad = [], [], [], [], [], [], [], []
     seen = set()
     for r in rows:
         if r[0] == "-":
@@ -211,6 +211,8 @@ def parser_soundness_tie(c, hb):
                 case_line[w[1]] = r[1]
                 st["cases"] += 1
                 kinds[w[2]] = kinds.get(w[2], 0) + 1
+            elif w[0] == "schema":
+                schema_text[w[1]] = r[1].split(" ", 2)[2]
             elif w[0] == "skip":
                 st["skipped"][w[2]] = st["skipped"].get(w[2], 0) + 1
             if len(r) > 2 and r[2] != "ok":
@@ -236,12 +238,16 @@ def parser_soundness_tie(c, hb):
             continue
         if r[2] != "ok":
             oracle_bad.append((r, m))
-        if not m.startswith("valid="):
+        if not m.startswith("plainS="):
             st["bad_replies"] += 1
             continue
         d = dict(kv.split("=", 1) for kv in m.split(" "))
         valid = "valid=true" in r[1]
         st["documents"] += 1
+        if d["e2e"] != "n/a":
+            st["end_to_end_instances"] += 1
+            if d["e2e"] != "true":
+                e2e_bad.append((r, m))
         st["valid" if valid else "invalid"] += 1
         if cid not in seen:
             seen.add(cid)
@@ -275,7 +281,7 @@ def parser_soundness_tie(c, hb):
     def payload(kind, broken, r, m):
         cid = r[0].split(" ")[1] if r[0] != "-" else r[1].split(" ")[2]
         return {"kind": kind, "broken": broken, "stream": "c01-front", "request": r[0][:6000], "implementation": r[1][:6000], "oracle": (r[2] if len(r) > 2 else "")[:600],
-                "driver": m[:6000], "case": case_line.get(cid, "")[:6000], "compiled_schema": jsdef.get(cid, "")[:8000],
+                "driver": m[:6000], "case": case_line.get(cid, "")[:6000], "schema_text": schema_text.get(cid, "")[:8000], "compiled_schema": jsdef.get(cid, "")[:8000],
                 "how_to_replay": "harness c01-front seed=%d n=%d docs=%d faults=%d, case %s (pinned / testdata cases do not depend on the seed)" % (c.seed, n, docs, faults, cid)}
     for r, m in front_bad[:3]:
         c.violation(payload("front-end-model-disagrees", "the Lean model `generateAST` and the real internal/jsonschema GenerateAST build different IR (VIR text) or differ in ok/err for this schema: the model no longer describes the code", r, m))
@@ -289,11 +295,14 @@ def parser_soundness_tie(c, hb):
         c.violation(payload("parser-soundness-instance-fails-on-real-IR", "C01_jsonschema_parser_sound_fuel_partial: FragJS ∧ wfDeep ∧ jsValidX hold but the document is not in `srcDen` of the REAL front-end IR", r, m))
     for r, m in minst_bad[:3]:
         c.violation(payload("parser-soundness-instance-fails-on-model", "C01_jsonschema_parser_sound_fuel_partial evaluated by the driver on the MODEL's IR is false", r, m), found_input=False)
+    for r, m in e2e_bad[:3]:
+        c.violation(payload("end-to-end-instance-fails", "C01_jsonschema_end_to_end_partial: FragJS ∧ PlainS (real front-end IR) ∧ Go chain ok ∧ jsValidX hold but the model of the generated Go codec does not round-trip the document", r, m), found_input=False)
     ncases = st["front_ok_agree"] + st["front_err_agree"] + len(front_bad)
     c.oblige("c01-front (1): model of the JSON Schema front-end = real GenerateAST, VIR-equal (%d schemas: %d ok, %d err; kinds %s)" % (ncases, st["front_ok_agree"], st["front_err_agree"], kinds), not front_bad and not oracle_bad and st["bad_replies"] == 0,
              "disagreements %d, oracle failures %d, bad driver replies %d" % (len(front_bad), len(oracle_bad), st["bad_replies"]))
     c.oblige("c01-front (2): jsValid = the library's validator on every document of every fully modelled schema (%d documents, %d of them invalid); real-valid ⇒ jsValid on the %d others; jsValidX ⇒ jsValid" % (st["modelled_documents"], st["invalid"], st["unmodelled_documents"]), not valid_bad and not strict_bad)
     c.oblige("c01-front (3): FragJS ∧ wfDeep ∧ jsValidX ⇒ srcDen on the REAL front-end IR and on the model's (%d documents of %d schemas in FragJS)" % (st["frag_strict_wf"], st["frag_cases"]), not inst_bad and not minst_bad)
+    c.oblige("c01-front (3'): FragJS ∧ PlainS ∧ jsValidX ⇒ decodes and round-trips (C01_jsonschema_end_to_end_partial evaluated on the REAL front-end IR through the pass and codec models: %d documents)" % st["end_to_end_instances"], not e2e_bad and st["end_to_end_instances"] >= 200)
     c.oblige("witness of C01_jsonschema_parser_sound_counterexample replays on the real front-end (2^63 is valid against {type: integer}, in FragJS, not strictly valid, not in srcDen of the real IR)",
              len(witness) == 1 and all(w[2] for w in witness), [(w[0][1], w[1]) for w in witness] or "pinned row missing")
     c.oblige("c01-front is not vacuous (schemas, schemas in FragJS, strictly valid documents of the fragment, invalid documents, err schemas)",
